@@ -381,13 +381,14 @@ Definition compare (m : outcome) (m_nolimit : outcome) (o : observed) : option s
   end.
 
 Definition classes (route : string) (nops : nat) (has_op : bool) (body : list sexp) (spec : option (list etree))
-           (max : Z) (o : observed) : list string :=
+           (max : Z) (o : observed) (std : Z) : list string :=
   let spread := existsb (sexp_exists is_spread) body in
   let uses_var := existsb (sexp_exists (is_field_with cfd_uses_var)) body in
   let sets_ctx := existsb (sexp_exists (is_field_with cfd_sets_ctx)) body in
-  let e0 := match o with Obs e0 _ _ _ => e0 | ObsPanic => 1 end in
+  let e0 := match o with Obs e0 _ _ _ => if std >? 0 then std else e0 | ObsPanic => 1 end in
   let e1 := match o with Obs _ _ e1 _ => e1 | ObsPanic => 1 end in
   [route] ++
+  (if std >? 0 then ["invalid-document-rule-applied-directly"] else []) ++
   (if spread then ["fragments"] else ["fragment-free"]) ++
   (if uses_var then ["variables"] else []) ++
   (if sets_ctx then ["contexts"] else []) ++
@@ -418,6 +419,7 @@ Definition check (c : sexp) : sexp :=
       | Some (SL opsx), Some (SL frx), Some (SZ max), Some (SL cnx), Some obx =>
       match map_opt as_Z tb, map_opt dec_var vs, map_opt dec_op_raw opsx, dec_observed obx with
       | Some T, Some given, Some raws, Some o =>
+          let std := match field1 "std" l with Some (SZ n) => n | _ => 0 end in
           let dc : fcost ctxT := {| fc_r := dr; fc_m := dm; fc_ctx := None |} in
           (* the chosen operation decides which variable definitions apply *)
           let chosen := match filter (fun x => op_matches opname (fst (fst x))) raws with [x] => Some x | _ => None end in
@@ -450,7 +452,10 @@ Definition check (c : sexp) : sexp :=
                 | Some ts, None => zero_under_overflow ts
                 | _, _ => false
                 end in
-              match (match spec with Some ts => oracle ts max o | None => None end) with
+              (* [std] > 0: the standard rules reject the document, which is then outside the property's
+                 quantifier ("forall validated document"); ValidateDocument does not run the cost rule on
+                 it, the harness applied the rule directly and only model = implementation is demanded *)
+              match (match spec with Some ts => if std >? 0 then None else oracle ts max o | None => None end) with
               | Some v =>
                   match v with
                   | SL (SSym t :: _ :: details) =>
@@ -467,7 +472,7 @@ Definition check (c : sexp) : sexp :=
                       if negb (forallb conn_agrees conns) then v_mismatch "connection-edge-count" []
                       else
                         v_ok (classes route (List.length ops) (match chosen with Some _ => true | None => false end)
-                                      (map (fun x : option bytes * list vardef * sexp => snd x) raws ++ frx) spec max o
+                                      (map (fun x : option bytes * list vardef * sexp => snd x) raws ++ frx) spec max o std
                               ++ (match conns with [] => [] | _ => ["connections"] end))
                   end
               end
